@@ -231,9 +231,129 @@ class Backward:
 
 
 # ------------------------------------------------------------------ driver
+class _Desugar(ast.NodeTransformer):
+    """Semantics-preserving rewriting of a conversion function into the straight-line form the evaluators read:
+       * `for v in (<constant tuple>): body` is unrolled with v replaced by each constant, and "C" + "12", int("2"),
+         "12"[1] are folded;
+       * local dicts created empty (`d = {}` / `a, b = {}, {}`) and used with constant string keys become one local
+         per key (d["12"] -> d__12);
+       * `<input>.get(K, 0)` is `<input>[K]` (missing coefficients count as zero, like the defaultdict form);
+       * `K in <input>` is left as a branch on the input, which the driver evaluates both ways."""
+
+    def __init__(self, in_name: str):
+        self.in_name = in_name
+        self.local_dicts: set[str] = set()
+
+    # ---- folding helpers
+    @staticmethod
+    def _fold(e: ast.expr) -> ast.expr:
+        if isinstance(e, ast.BinOp) and isinstance(e.op, ast.Add) and isinstance(e.left, ast.Constant) and \
+                isinstance(e.right, ast.Constant) and isinstance(e.left.value, str) and isinstance(e.right.value, str):
+            return ast.copy_location(ast.Constant(value=e.left.value + e.right.value), e)
+        if isinstance(e, ast.Subscript) and isinstance(e.value, ast.Constant) and isinstance(e.value.value, str) and \
+                isinstance(e.slice, ast.Constant) and isinstance(e.slice.value, int):
+            try:
+                return ast.copy_location(ast.Constant(value=e.value.value[e.slice.value]), e)
+            except IndexError:
+                return e
+        if isinstance(e, ast.Call) and isinstance(e.func, ast.Name) and e.func.id in ("int", "float") and \
+                len(e.args) == 1 and isinstance(e.args[0], ast.Constant) and isinstance(e.args[0].value, (str, int, float)):
+            try:
+                return ast.copy_location(ast.Constant(value={"int": int, "float": float}[e.func.id](e.args[0].value)), e)
+            except ValueError:
+                return e
+        if isinstance(e, ast.JoinedStr) and all(isinstance(v, ast.Constant) or (
+                isinstance(v, ast.FormattedValue) and isinstance(v.value, ast.Constant)) for v in e.values):
+            txt = "".join(str(v.value if isinstance(v, ast.Constant) else v.value.value) for v in e.values)
+            return ast.copy_location(ast.Constant(value=txt), e)
+        return e
+
+    def generic_visit(self, node):
+        node = super().generic_visit(node)
+        return self._fold(node) if isinstance(node, ast.expr) else node
+
+    def visit_For(self, node: ast.For):
+        it = node.iter
+        if isinstance(it, (ast.Tuple, ast.List)) and all(isinstance(e, ast.Constant) for e in it.elts) and \
+                isinstance(node.target, ast.Name) and not node.orelse:
+            out = []
+            for c in it.elts:
+                class Sub(ast.NodeTransformer):
+                    def visit_Name(s, n):
+                        if n.id == node.target.id and isinstance(n.ctx, ast.Load):
+                            return ast.copy_location(ast.Constant(value=c.value), n)
+                        return n
+                import copy as _copy
+                for st in node.body:
+                    st2 = Sub().visit(_copy.deepcopy(st))
+                    r = self.visit(st2)
+                    out += r if isinstance(r, list) else [r]
+            return out
+        return self.generic_visit(node)
+
+    def visit_Assign(self, node: ast.Assign):
+        # a, b = {}, {}   /   d = {} / d = dict()
+        def empty_dict(v):
+            return (isinstance(v, ast.Dict) and not v.keys) or (isinstance(v, ast.Call) and isinstance(v.func, ast.Name)
+                                                                and v.func.id == "dict" and not v.args and not v.keywords)
+        t = node.targets[0]
+        if len(node.targets) == 1 and isinstance(t, ast.Tuple) and isinstance(node.value, ast.Tuple) and \
+                len(t.elts) == len(node.value.elts) and all(isinstance(x, ast.Name) for x in t.elts) and \
+                all(empty_dict(v) for v in node.value.elts):
+            self.local_dicts |= {x.id for x in t.elts}
+            return []
+        node = self.generic_visit(node)
+        t = node.targets[0]
+        if isinstance(t, ast.Subscript) and isinstance(t.value, ast.Name) and t.value.id in self.local_dicts and \
+                isinstance(t.slice, ast.Constant) and isinstance(t.slice.value, str):
+            node.targets = [ast.copy_location(ast.Name(id=f"{t.value.id}__{t.slice.value}", ctx=ast.Store()), t)]
+        return node
+
+    def visit_Subscript(self, node: ast.Subscript):
+        node = self.generic_visit(node)
+        if isinstance(node, ast.Subscript) and isinstance(node.ctx, ast.Load) and isinstance(node.value, ast.Name) and \
+                node.value.id in self.local_dicts and isinstance(node.slice, ast.Constant) and isinstance(node.slice.value, str):
+            return ast.copy_location(ast.Name(id=f"{node.value.id}__{node.slice.value}", ctx=ast.Load()), node)
+        return node
+
+    def visit_Call(self, node: ast.Call):
+        node = self.generic_visit(node)
+        if isinstance(node, ast.Call) and isinstance(node.func, ast.Attribute) and node.func.attr == "get" and \
+                isinstance(node.func.value, ast.Name) and node.func.value.id == self.in_name and 1 <= len(node.args) <= 2:
+            dflt = node.args[1] if len(node.args) == 2 else None
+            if dflt is None or (isinstance(dflt, ast.Constant) and dflt.value in (0, 0.0)):
+                return ast.copy_location(ast.Subscript(value=node.func.value, slice=node.args[0], ctx=ast.Load()), node)
+        return node
+
+
+def _needs_desugar(fn: ast.FunctionDef, in_name: str) -> bool:
+    for n in ast.walk(fn):
+        if isinstance(n, ast.For):
+            return True
+        if isinstance(n, ast.Call) and isinstance(n.func, ast.Attribute) and n.func.attr == "get" and \
+                isinstance(n.func.value, ast.Name) and n.func.value.id == in_name:
+            return True
+    return False
+
+
 def _straight_line(f, evaluator, out_kind):
     """Run the evaluator over the top-level statements; returns {key: (value, stmt)} of the stores into
     the returned mapping."""
+    if not getattr(f, "_desugared", False) and _needs_desugar(f.node, f.positional_params[0]):
+        import copy as _copy
+
+        node2 = _copy.deepcopy(f.node)
+        d = _Desugar(f.positional_params[0])
+        new_body = []
+        for st in node2.body:
+            r = d.visit(st)
+            new_body += r if isinstance(r, list) else [r]
+        # local dicts created one at a time: `d = {}`
+        node2.body = [st for st in new_body if st is not None]
+        ast.fix_missing_locations(node2)
+        f2 = type(f)(f.module, node2, f.cls)
+        f2._desugared = True
+        return _straight_line(f2, evaluator, out_kind)
     rets = [s for s in f.body if isinstance(s, ast.Return)]
     if len(rets) != 1 or f.body[-1] is not rets[0] or not isinstance(rets[0].value, ast.Name):
         raise AnalysisError(f"{f.qualname}: expected a single trailing `return <mapping>`")
